@@ -920,6 +920,84 @@ fn upgrade_race(rng: &mut Rng, rep: &mut Report, case_no: u64) {
     }
 }
 
+#[cfg(not(feature = "parallel"))]
+fn guard_migration(_rng: &mut Rng, _rep: &mut Report, _case_no: u64) {}
+
+/// A guard is taken on one thread and dropped on another (guards are `Send` when the resource
+/// is): dropping it releases the borrow, wherever that happens - the thread that took it can
+/// fetch again at once.
+#[cfg(feature = "parallel")]
+fn guard_migration(rng: &mut Rng, rep: &mut Report, case_no: u64) {
+    rep.evaluations += 1;
+    let mut world = World::empty();
+    let s = Slot::new(rng.below(NTYPES), if rng.chance(1, 2) { 0 } else { rng.below(NDYN) });
+    insert_slot(&mut world, s, 1);
+    let world = &world;
+    let rounds = rng.range(20, 120);
+    let kinds: Vec<bool> = (0..rounds).map(|_| rng.chance(2, 3)).collect();
+    let mut problem: Option<(String, String)> = None;
+    std::thread::scope(|sc| {
+        let (to_b_w, from_a_w) = std::sync::mpsc::channel::<WGuard<'_>>();
+        let (to_b_r, from_a_r) = std::sync::mpsc::channel::<RGuard<'_>>();
+        let (ack_tx, ack_rx) = std::sync::mpsc::channel::<()>();
+        let kinds_b = kinds.clone();
+        sc.spawn(move || {
+            for excl in kinds_b {
+                if excl {
+                    match from_a_w.recv() {
+                        Ok(g) => drop(g),
+                        Err(_) => return,
+                    }
+                } else {
+                    match from_a_r.recv() {
+                        Ok(g) => drop(g),
+                        Err(_) => return,
+                    }
+                }
+                if ack_tx.send(()).is_err() {
+                    return;
+                }
+            }
+        });
+        for (i, excl) in kinds.iter().enumerate() {
+            let r = catch_unwind(AssertUnwindSafe(|| {
+                if *excl {
+                    let g = fetch_w(world, s).expect("present");
+                    let _ = to_b_w.send(g);
+                } else {
+                    let g = fetch_r(world, s).expect("present");
+                    let _ = to_b_r.send(g);
+                }
+            }));
+            if let Err(p) = r {
+                problem = Some((
+                    "refused_without_a_live_guard".into(),
+                    format!("round {}: the {} fetch of {} was refused ({}) although every earlier guard had been dropped (on another thread) and that drop had been acknowledged", i, if *excl { "exclusive" } else { "shared" }, s.label(), payload_str(&*p)),
+                ));
+                break;
+            }
+            if ack_rx.recv_timeout(std::time::Duration::from_secs(8)).is_err() {
+                problem = Some(("harness".into(), "the other thread did not acknowledge the drop".into()));
+                break;
+            }
+            if probe(world, s) != Probe::Free {
+                problem = Some(("not_released".into(), format!("round {}: after the guard was dropped on another thread {} probes as {:?}", i, s.label(), probe(world, s))));
+                break;
+            }
+        }
+        drop(to_b_w);
+        drop(to_b_r);
+    });
+    let _ = take_panics();
+    rep.metric("guard_migration_cases", 1);
+    rep.metric("guards_dropped_on_another_thread", rounds as i64);
+    match problem {
+        Some((k, m)) if k != "harness" => rep.violation(&k, &m, case_no, J::obj().set("kind", "guard migration")),
+        Some(_) => rep.inconclusive += 1,
+        None => rep.nontrivial(mix(0x0809, rounds as u64)),
+    }
+}
+
 pub fn run(args: &Args) -> i32 {
     let mut rep = Report::new(args);
     let small = args.has("--small"); // Miri-sized
@@ -935,7 +1013,9 @@ pub fn run(args: &Args) -> i32 {
             break;
         }
         let mut rng = Rng::new(args.case_seed(c));
-        if !small && (c % stress_every == stress_every / 2 || (args.has("--stress-only") && c % 2 == 1)) {
+        if !small && c % stress_every == stress_every / 4 && !args.has("--stress-only") {
+            guard_case(&mut rep, c, |rep| guard_migration(&mut rng, rep, c));
+        } else if !small && (c % stress_every == stress_every / 2 || (args.has("--stress-only") && c % 2 == 1)) {
             guard_case(&mut rep, c, |rep| upgrade_race(&mut rng, rep, c));
         } else if c % stress_every == stress_every - 1 || args.has("--stress-only") {
             let (th, ops) = if small { (3, 40) } else { (rng.range(2, 16), if args.thorough { 6000 } else { 1500 }) };
